@@ -18,7 +18,7 @@ LEVEL = "translation_validation"
 PROPS_FILE = "C07.v"
 RUN_MODULE = "RunC07"
 TRANSLATOR_UNITS = []
-SHARD = 12
+SHARD = 20
 RULE = ("designs from a seeded generator: module trees of depth <= 3 (some modules empty), 3-10 signals whose names are drawn "
         "from a small pool so that they clash with each other, with port names and with submodule names (private '' names and, "
         "at a low rate, '$'-suffixed names that collide with generated ones included), widths 0-8, every signal owned by one "
@@ -406,8 +406,29 @@ def _attr_json(name, v):
 
 
 # =================================================================== AST -> Gallina
+_INTERN = None      # dict str -> variable name while a case term is being printed
+
+
 def qs(s):
+    if _INTERN is not None:
+        v = _INTERN.get(s)
+        if v is None:
+            v = _INTERN[s] = f"s{len(_INTERN)}"
+        return v
     return '"' + s.replace('"', '""') + '"%string'
+
+
+def with_strings(make):
+    """print a term with every distinct string literal bound once by a `let` (string literals are slow to read)"""
+    global _INTERN
+    _INTERN = {}
+    try:
+        body = make()
+        table = _INTERN
+    finally:
+        _INTERN = None
+    lets = "".join(f'let {v} := "' + k.replace('"', '""') + '"%string in\n ' for k, v in table.items())
+    return "(" + lets + body + ")"
 
 
 BITV = {"0": 0, "1": 1, "x": 2, "z": 3, "-": 4, "m": 5}
@@ -531,42 +552,69 @@ def run_impl(case):
         return [1]
     if k == "names":
         from amaranth.hdl import _ir
-        s = set(case["reserved"])
-        out = []
-        try:
-            for n in case["wanted"]:
-                out.append(_ir._add_name(s, n))
-        except AssertionError:
-            return [0]
-        res = [1]
-        for n in out:
-            res += [ord(c) for c in n] + [-1]
+        res = []
+        for reserved, wanted in case["items"]:
+            s = set(reserved)
+            out = []
+            try:
+                for n in wanted:
+                    out.append(_ir._add_name(s, n))
+            except AssertionError:
+                res += [0, -2]
+                continue
+            res.append(1)
+            for n in out:
+                res += [ord(c) for c in n] + [-1]
+            res.append(-2)
         return res
     raise ValueError(k)
+
+
+_CACHE = {}
+
+
+def analyse(D):
+    """convert + parse + expectations, once per design per process: (status, text, doc, ex, exception)"""
+    key = json.dumps(D, sort_keys=True)
+    r = _CACHE.get(key)
+    if r is None:
+        try:
+            text, B = convert(D)
+        except Exception as e:
+            tb = traceback.extract_tb(sys.exc_info()[2])
+            r = ("raise", None, None, None, (type(e).__name__, tb[-1].name if tb else ""))
+        else:
+            try:
+                doc = rtlil_parse.parse(text)
+            except rtlil_parse.RtlilSyntaxError as e:
+                r = ("noparse", text, None, None, ("RtlilSyntaxError", str(e)))
+            else:
+                r = ("ok", text, doc, expectations(D, B, doc), None)
+        _CACHE[key] = r
+    return r
 
 
 def coq_term(case):
     k = case["kind"]
     if k == "design":
-        try:
-            text, B = convert(case["d"])
-            doc = rtlil_parse.parse(text)
-        except Exception:
+        st, text, doc, ex, err = analyse(case["d"])
+        if st != "ok":
             STATS["convert_failed"] += 1
             return "[1]"       # the property: a legal design converts to a document that parses
-        ex = expectations(case["d"], B, doc)
         STATS["programs"] += 1
         if len(STATS["samples"]) < 2 and len(text) < 2500 and len(doc["modules"]) > 1:
             STATS["samples"].append({"design": case["d"], "rtlil": text, "instances_expected": ex})
-        return f"k_wf {t_ex(ex)}\n {t_doc(doc)}"
+        return with_strings(lambda: f"k_wf {t_ex(ex)}\n {t_doc(doc)}")
     if k == "neg":
         STATS["neg"] += 1
         doc = case["doc"] if "doc" in case else rtlil_parse.parse(case["text"])
-        return f"k_verdict {t_ex(case.get('ex', []))}\n {t_doc(doc)}"
+        return with_strings(lambda: f"k_verdict {t_ex(case.get('ex', []))}\n {t_doc(doc)}")
     if k == "design_text":
-        return f"k_wf []\n {t_doc(rtlil_parse.parse(case['text']))}"
+        STATS["programs"] += 1
+        return with_strings(lambda: f"k_wf []\n {t_doc(rtlil_parse.parse(case['text']))}")
     if k == "names":
-        return f"k_names {t_strs(case['reserved'])} {t_strs(case['wanted'])}"
+        return with_strings(lambda: "k_names_batch [" + ";\n ".join(
+            f"({t_strs(r)},{t_strs(w)})" for r, w in case["items"]) + "]")
     raise ValueError(k)
 
 
@@ -589,7 +637,7 @@ def classify(case):
         return "neg:" + case["why"]
     if k == "design_text":
         return "text:" + case["why"]
-    return "names:" + ("dup" if len(set(case["wanted"]) | set(case["reserved"])) < len(case["wanted"]) + len(case["reserved"]) else "nodup")
+    return "names:batch"
 
 
 def nontrivial(case, obs):
@@ -601,20 +649,19 @@ def nontrivial(case, obs):
         return len(d["sigs"]) >= 2 and any(m["st"] or m["items"] for m in d["mods"])
     if k in ("neg", "design_text"):
         return True
-    return len(set(case["wanted"])) < len(case["wanted"]) or bool(set(case["wanted"]) & set(case["reserved"]))
+    return any(len(set(w)) < len(w) or (set(w) & set(r)) for r, w in case["items"])
 
 
 def known_finding(case, obs, model):
-    """S3: the conversion of a legal design dies in the assertion of _ir._add_name"""
+    """the conversion of a legal design dies in a bare assertion because a generated name collides with a user name:
+    S3 in _ir._add_name (name$<n>); second class in rtlil.emit_signal_wires (port$<cell>$<bit> of a private signal)"""
     if case["kind"] == "design" and obs == [-1, EXC["AssertionError"]]:
-        try:
-            convert(case["d"])
-        except AssertionError:
-            tb = traceback.extract_tb(sys.exc_info()[2])
-            if tb and tb[-1].name == "_add_name":
+        st, _t, _d, _e, err = analyse(case["d"])
+        if st == "raise" and err[0] == "AssertionError":
+            if err[1] == "_add_name":
                 return "S3-add-name-assert"
-        except Exception:
-            return None
+            if err[1] == "emit_signal_wires" and any(s["n"].startswith("port$") for s in case["d"]["sigs"]):
+                return "C07-port-name-collision"
     return None
 
 
@@ -643,7 +690,10 @@ def extra(tier, seed, findings):
         "explanation": ("programs = emitted documents parsed and judged by vm_compute (wf_doc); disagreements_checked = corrupted "
                         "documents (expected verdict: reject) on which the validator's verdict was compared; conversions that "
                         f"raised instead of emitting a document: {STATS['convert_failed']} (each reported as a mismatch)"),
-        "validated_samples": STATS["samples"],
+        "samples": STATS["samples"] + [{"negative_corpus_case": HAND_NEG[6][0], "rtlil": HAND_NEG[6][1], "expected_verdict": "reject"},
+                                        {"add_name_sequence": {"reserved": ["o"], "wanted": ["a", "a$3", "a"]},
+                                         "implementation": "AssertionError", "model": "None"}],
+        "generator_skipped_illegal_designs": GEN_STATS.get("skipped_illegal", 0),
     }
     return [], cov
 
@@ -987,13 +1037,10 @@ def _fit(rng, D, ids, w):
 
 def legal(D):
     """does the real toolchain accept the design? (DriverConflict etc. = generator slip, the design is skipped)"""
-    try:
-        convert(D)
-        return True, None
-    except AssertionError as e:
-        return True, e          # never legitimate: kept as a case (S3 or a new defect)
-    except Exception as e:
-        return False, e
+    st, _text, _doc, _ex, err = analyse(D)
+    if st == "raise" and err[0] != "AssertionError":
+        return False, err
+    return True, (None if st == "ok" else err)      # an AssertionError is never legitimate: kept as a case
 
 
 # ---- hand-written designs (fixed list)
@@ -1227,12 +1274,20 @@ def gen_cases(tier, seed):
             "mods": [{"n": None, "doms": [], "items": [],
                       "st": [["comb", [["eq", ["s", 3], ["b", "^", ["s", 0], ["b", "^", ["s", 1], ["s", 2]]]]]]]}],
             "ports": [["s", 3, None, None]]}})
+    # second collision class: a private signal crossing a module boundary is given the port name port$<cell>$<bit>
+    S = lambda n, w: {"n": n, "w": w, "s": False, "i": 0}
+    for k in range(0, 3):
+        cases.append({"kind": "design", "d": {
+            "sigs": [S("i", 1), S("", 1), S(f"port${k}$0", 4), S("o", 4)], "ios": [],
+            "mods": [{"n": None, "doms": [], "items": [["mod", 1, "sub"]], "st": [["comb", [["eq", ["s", 1], ["u", "~", ["s", 0]]]]]]},
+                     {"n": None, "doms": [], "items": [], "st": [["comb", [["eq", ["s", 3], ["b", "+", ["s", 2], ["s", 1]]]]]]}],
+            "ports": [["s", 0, None, None], ["s", 2, None, None], ["s", 3, None, None]]}})
     for why, text in HAND_POS:
         cases.append({"kind": "design_text", "why": why, "text": text})
     for why, text in HAND_NEG:
         cases.append({"kind": "neg", "why": why, "text": text})
-    n_designs = 420 if not thorough else 6000
-    n_mut_src = 40 if not thorough else 300
+    n_designs = 300 if not thorough else 2000
+    n_mut_src = 16 if not thorough else 100
     made = 0
     skipped = 0
     mut_pool = []
@@ -1249,9 +1304,7 @@ def gen_cases(tier, seed):
         if err is None and len(mut_pool) < n_mut_src and (made % 7 == 0):
             mut_pool.append(D)
     for D in mut_pool:
-        text, B = convert(D)
-        doc = rtlil_parse.parse(text)
-        ex = expectations(D, B, doc)
+        _st, _text, doc, ex, _err = analyse(D)
         muts = mutate(rng, doc, ex)
         seen = set()
         for why, d2, e2 in muts:
@@ -1261,16 +1314,19 @@ def gen_cases(tier, seed):
             if len(seen) > 4:
                 break
             cases.append({"kind": "neg", "why": why, "doc": d2, "ex": e2})
-    # names
-    alpha = ["a", "b", "a$1", "a$2"]
+    # names: batches of _add_name sequences
     import itertools
+    alpha = ["a", "b", "a$1", "a$2"]
+    seqs = []
     for n in range(0, 5):
         for ws in itertools.product(alpha, repeat=n):
-            cases.append({"kind": "names", "reserved": [], "wanted": list(ws)})
-    for _ in range(300 if not thorough else 5000):
+            seqs.append([[], list(ws)])
+    for _ in range(400 if not thorough else 8000):
         pool = ["a", "b", "c", "a$1", "a$2", "a$3", "a$4", "b$2", "b$3", "a$2$3", "clk", "rst", "", "$", "a$"]
         res = sorted(set(rng.choice(pool) for _ in range(rng.randrange(0, 4))))
-        cases.append({"kind": "names", "reserved": res, "wanted": [rng.choice(pool) for _ in range(rng.randrange(1, 8))]})
+        seqs.append([res, [rng.choice(pool) for _ in range(rng.randrange(1, 8))]])
+    for i in range(0, len(seqs), 150):
+        cases.append({"kind": "names", "items": seqs[i:i + 150]})
     GEN_STATS["skipped_illegal"] = skipped
     return cases
 
